@@ -222,6 +222,11 @@ v("b74-load-validate-hoisted", ["C01", "C09"], "load(): the expected id bound to
 v("b75-update-cache-tmp-name-local", ["C10", "C03", "C08"], "update_cache: same temporary, suffix via a constant",
   (P, "            fn_cache_tmp = fn_cache + \"~\"", "            suffix = \"~\"\n            fn_cache_tmp = fn_cache + suffix"))
 
+v("b76-open-job-bisect-correct", ["C02", "C05"], "abbreviated ids resolved by bisection of the sorted listing with an inclusive upper key (bisect_right)",
+  (P, "from collections import defaultdict\n", "from bisect import bisect_left, bisect_right\nfrom collections import defaultdict\n"),
+  (P, "                job_ids = self._find_job_ids()\n                matches = [id_ for id_ in job_ids if id_.startswith(id)]\n",
+      "                job_ids = sorted(self._find_job_ids())\n                first = bisect_left(job_ids, id)\n                last = bisect_right(job_ids, id + \"f\" * (JOB_ID_LENGTH - len(id)))\n                matches = job_ids[first:last]\n"))
+
 
 def main():
     os.makedirs(OUT, exist_ok=True)
